@@ -858,7 +858,7 @@ func (h *harness) evalHTTP(class, desc string, body []byte) {
 
 // ---- WebSocket ----
 
-const wsPatience = 10 * time.Second // liveness bound; only ever reached when a response is missing
+const wsPatience = 30 * time.Second // liveness bound; only ever reached when a response is missing
 
 type wsDrv struct {
 	h    *harness
